@@ -99,4 +99,14 @@ theorem C11_single_writer :
     (Gen.utilSites.filter (fun x => x.2.1 = "recv" ∧ x.2.2 = "m.Outbound" ∧ x.1 = "MessageStream.outbound")) = [] := by
   decide
 
+/-- "a message is represented by its encoding": the bytes MarshalBinary returned stay what they were while the writer
+    holds them. In the model this is value semantics; in the source it needs that the encoders share no storage across
+    calls: the codec packages have NO package-level variable an encoder could keep a buffer (or a pool of buffers) in —
+    the only package-level variables are the xid counter, the 1.3 header generator, the match-field registry and two
+    DHCP tables (regenerated on every run; the C14 facts theorem pins every write to them). -/
+theorem C11_no_shared_encoder_storage :
+    Gen.globalVars.all (fun v => v ∈ [("common", "messageXid"), ("openflow13", "NewOfp13Header"),
+      ("openflow13", "oxxFieldHeaderMap"), ("protocol", "DHCPOptionTypeStrings"), ("protocol", "dhcpMagic")]) = true := by
+  decide
+
 end OFV.Props.C11
